@@ -237,6 +237,13 @@ void HttpMessage::setHeader(const String& name, const String& value)
 		_headers[cname] = value;
 }
 
+void HttpMessage::setHeaders(const Dic<>& headers)
+{
+	// names are stored in their canonical form, as setHeader() does, so that header("Content-Type") finds "content-type"
+	foreach2(String& name, const String& value, headers)
+		_headers[capitalized(name)] = value;
+}
+
 String HttpMessage::header(const String& name) const
 {
 	String cname = capitalized(name);
